@@ -147,6 +147,24 @@ def rmHop (extra : List OptRR) : List OptRR :=
   (extra.map (fun rr => { rr with opts := rr.opts.filter (fun o => o == .other 15) })).filter
     (fun rr => !rr.opts.isEmpty)
 
+/-! ## Names
+
+`ratelimitmw.newRequestInfo` puts `agdnet.NormalizeDomain(q.Name)` (final dot removed, ASCII letters
+lower-cased; miekg/dns presents every other byte as an ASCII escape) into `ri.Host`, which is what
+the cache keys and the host check use; `respIsECSDependent` is asked about `req.Question[0].Name`,
+the name as the message spells it.  Names are byte strings; `nameNat` numbers them injectively so
+that the rest of the model keeps natural numbers for hosts. -/
+
+def lowerByte (b : Nat) : Nat := if 65 ≤ b ∧ b ≤ 90 then b + 32 else b
+
+/-- `strings.TrimSuffix(fqdn, ".")`. -/
+def trimDot (n : List Nat) : List Nat := if n.getLast? = some 46 then n.dropLast else n
+
+/-- `agdnet.NormalizeDomain`. -/
+def normalizeDomain (n : List Nat) : List Nat := (trimDot n).map lowerByte
+
+def nameNat (n : List Nat) : Nat := n.foldl (fun a b => a * 256 + b) 1
+
 /-! ## Environment, requests, caches -/
 
 structure Env where
@@ -155,7 +173,7 @@ structure Env where
   data : Fam → Nat → Option Loc
   /-- `geoip.Interface.SubnetByLocation`; `none` is an error. -/
   subnet : Loc → Fam → Option Pfx
-  /-- membership in `FakeECSFQDNs`. -/
+  /-- membership in `FakeECSFQDNs` of a question name as spelled (`Req.qn`). -/
   fake : Nat → Bool
 
 structure Req where
@@ -171,7 +189,15 @@ structure Req where
   cl : Option Loc
   /-- `ri.ECS.Location`: the same for the address of a valid ECS option (ignored without one). -/
   el : Option Loc
+  /-- `req.Question[0].Name` as the message spells it (numbered by `nameNat`); `host` is the number
+  of its normalisation when the request comes from the wire (`Req.ofName`).  Only the fake-ECS list
+  is asked about it. -/
+  qn : Nat
 deriving DecidableEq, Repr
+
+/-- The two names of a request whose question name is the byte string `n`. -/
+def hostOfName (n : List Nat) : Nat := nameNat (normalizeDomain n)
+def qnOfName (n : List Nat) : Nat := nameNat n
 
 /-- What the upstream does if consulted. -/
 structure Up where
@@ -425,7 +451,7 @@ def upScope (u : Up) : Nat :=
 
 def respIsECSDependent (env : Env) (scope host : Nat) : Bool := scope != 0 && !env.fake host
 
-def dependent (env : Env) (r : Req) (u : Up) : Bool := respIsECSDependent env (upScope u) r.host
+def dependent (env : Env) (r : Req) (u : Up) : Bool := respIsECSDependent env (upScope u) r.qn
 
 /-! ## Outcomes -/
 
